@@ -792,3 +792,159 @@ Proof.
   - rewrite S2, S1. reflexivity.
   - exact (erase_not_mark x t T2).
 Qed.
+
+(* ---- Part 5: re-encoding what Decode returned (C05) ---------------------------------------------- *)
+
+Lemma norm_reify_list : forall c l,
+  Forall (fun x => forall t r, erase x = Some t -> reify x = Some r -> fits c t = true -> norm c r = Some t) l ->
+  forall ts rs, map_opt erase l = Some ts -> map_opt reify l = Some rs -> forallb (fits c) ts = true ->
+  map_opt (norm c) rs = Some ts.
+Proof.
+  intros c l F. induction F as [|x l Hx F IH]; intros ts rs He Hr Hf; cbn in He, Hr.
+  - inversion He; inversion Hr; subst. reflexivity.
+  - destruct (erase x) as [tx|] eqn:Ex; [|discriminate].
+    destruct (map_opt erase l) as [tl|] eqn:El; [|discriminate].
+    destruct (reify x) as [rx|] eqn:Rx; [|discriminate].
+    destruct (map_opt reify l) as [rl|] eqn:Rl; [|discriminate].
+    inversion He; inversion Hr; subst. cbn in Hf. apply andb_true_iff in Hf. destruct Hf as [F1 F2].
+    cbn. rewrite (Hx tx rx eq_refl eq_refl F1), (IH tl rl eq_refl eq_refl F2). reflexivity.
+Qed.
+
+Lemma norm_reify : forall c x t r,
+  erase x = Some t -> reify x = Some r -> fits c t = true -> norm c r = Some t.
+Proof.
+  intros c x. induction x as [ |b|z|z|i z|b|a b|s|s|s|s|i l IHl|l IHl|i|i|m n|m n l IHl|p IHp|tg| ] using val_ind';
+    intros t r He Hr Hf; cbn in He, Hr; try discriminate.
+  - inversion He; inversion Hr; subst. reflexivity.
+  - inversion He; inversion Hr; subst. reflexivity.
+  - (* VInt *) inversion He; inversion Hr; subst. cbn in Hf |- *. rewrite Hf. reflexivity.
+  - inversion He; inversion Hr; subst. reflexivity.
+  - (* VFloat *) inversion He; inversion Hr; subst. cbn in Hf |- *. rewrite Hf. reflexivity.
+  - (* VStr *) inversion He; inversion Hr; subst. cbn in Hf |- *. unfold norm_text. rewrite Hf. reflexivity.
+  - (* VBStr *) inversion He; inversion Hr; subst. cbn in Hf |- *.
+    apply andb_true_iff in Hf. destruct Hf as [Hf Hs]. rewrite Hf, Hs. reflexivity.
+  - (* VBytes *) inversion He; inversion Hr; subst. cbn in Hf |- *. rewrite Hf. reflexivity.
+  - (* VBArr *) inversion He; inversion Hr; subst. cbn in Hf |- *. rewrite Hf. reflexivity.
+  - (* VList *)
+    destruct (map_opt erase l) as [tl|] eqn:El; [|discriminate].
+    destruct (map_opt reify l) as [rl|] eqn:Rl; [|discriminate].
+    inversion He; inversion Hr; subst. cbn in Hf |- *.
+    rewrite (norm_reify_list c l IHl tl rl El Rl Hf). reflexivity.
+  - (* VTuple *)
+    destruct (map_opt erase l) as [tl|] eqn:El; [|discriminate].
+    destruct (map_opt reify l) as [rl|] eqn:Rl; [|discriminate].
+    inversion He; inversion Hr; subst. cbn in Hf |- *.
+    rewrite (norm_reify_list c l IHl tl rl El Rl Hf). reflexivity.
+  - (* VClass *) inversion He; inversion Hr; subst. cbn in Hf |- *. rewrite Hf. reflexivity.
+  - (* VCall *)
+    destruct (map_opt erase l) as [tl|] eqn:El; [|discriminate].
+    destruct (map_opt reify l) as [rl|] eqn:Rl; [|discriminate].
+    inversion He; inversion Hr; subst. cbn in Hf |- *.
+    apply andb_true_iff in Hf. destruct Hf as [Hc Hl]. rewrite Hc.
+    rewrite (norm_reify_list c l IHl tl rl El Rl Hl). reflexivity.
+  - (* VRef *)
+    destruct (erase p) as [tp|] eqn:Ep; [|discriminate].
+    destruct (reify p) as [rp|] eqn:Rp; [|discriminate].
+    inversion He; inversion Hr; subst. cbn in Hf |- *.
+    apply andb_true_iff in Hf. destruct Hf as [H1 H2]. unfold norm_ref. rewrite H1.
+    rewrite (IHp tp rp eq_refl eq_refl H2). reflexivity.
+Qed.
+
+(* every erasable value has a reflection *)
+Lemma reify_total_list : forall l,
+  Forall (fun x => forall t, erase x = Some t -> exists r, reify x = Some r) l ->
+  forall ts, map_opt erase l = Some ts -> exists rs, map_opt reify l = Some rs.
+Proof.
+  intros l F. induction F as [|x l Hx F IH]; intros ts He; cbn in He.
+  - exists []. reflexivity.
+  - destruct (erase x) as [tx|] eqn:Ex; [|discriminate].
+    destruct (map_opt erase l) as [tl|] eqn:El; [|discriminate].
+    destruct (Hx tx eq_refl) as [rx Rx]. destruct (IH tl eq_refl) as [rl Rl].
+    exists (rx :: rl). cbn. rewrite Rx, Rl. reflexivity.
+Qed.
+
+Lemma reify_total : forall x t, erase x = Some t -> exists r, reify x = Some r.
+Proof.
+  intros x. induction x as [ |b|z|z|i z|b|a b|s|s|s|s|i l IHl|l IHl|i|i|m n|m n l IHl|p IHp|tg| ] using val_ind';
+    intros t He; cbn in He; try discriminate; cbn [reify]; try (eexists; reflexivity).
+  - destruct (map_opt erase l) as [tl|] eqn:El; [|discriminate].
+    destruct (reify_total_list l IHl tl El) as [rl Rl]. rewrite Rl. eexists; reflexivity.
+  - destruct (map_opt erase l) as [tl|] eqn:El; [|discriminate].
+    destruct (reify_total_list l IHl tl El) as [rl Rl]. rewrite Rl. eexists; reflexivity.
+  - destruct (map_opt erase l) as [tl|] eqn:El; [|discriminate].
+    destruct (reify_total_list l IHl tl El) as [rl Rl]. rewrite Rl. eexists; reflexivity.
+  - destruct (erase p) as [tp|] eqn:Ep; [|discriminate].
+    destruct (IHp tp eq_refl) as [rp Rp]. rewrite Rp. eexists; reflexivity.
+Qed.
+
+(* Decode, Encode the result at protocol c, Decode again: the same content.  The second decoder
+   may be any decoder (fresh or used), with the same StrictUnicode as the encoder. *)
+Theorem decode_encode_decode : forall c pd x t st rest,
+  (0 <= e_proto c <= 5)%Z -> erase x = Some t -> fits c t = true ->
+  exists r, reify x = Some r /\
+    snd (run_w (encode c r) None) = EOk /\
+    exists x' st', decode (dcfg_of c pd) st (output (encode c r) ++ rest) = ((Ok x', st'), rest) /\
+                   erase x' = erase x.
+Proof.
+  intros c pd x t st rest Hp He Hf.
+  destruct (reify_total x t He) as [r Hr]. exists r. split; [exact Hr|].
+  pose proof (norm_reify c x t r He Hr Hf) as Hn.
+  destruct (encode_decode c pd r t st rest Hp Hn) as [W [x' [st' [D E]]]].
+  split; [exact W|]. exists x', st'. split; [exact D|]. rewrite E, He. reflexivity.
+Qed.
+
+From OgRek Require Import TypingFacts.
+
+Lemma fits_typed_list : forall cfg c l,
+  Forall (fun x => forall t, wt cfg x = true -> erase x = Some t -> fits_proto c t = true -> fits c t = true) l ->
+  forall ts, forallb (wt cfg) l = true -> map_opt erase l = Some ts ->
+             forallb (fits_proto c) ts = true -> forallb (fits c) ts = true.
+Proof.
+  intros cfg c l F. induction F as [|x l Hx F IH]; intros ts Hw He Hf; cbn in He.
+  - inversion He; subst. reflexivity.
+  - destruct (erase x) as [tx|] eqn:Ex; [|discriminate].
+    destruct (map_opt erase l) as [tl|] eqn:El; [|discriminate]. inversion He; subst.
+    cbn in Hw, Hf |- *. apply andb_true_iff in Hw, Hf. destruct Hw as [W1 W2]. destruct Hf as [F1 F2].
+    rewrite (Hx tx W1 eq_refl F1), (IH tl W2 eq_refl F2). reflexivity.
+Qed.
+
+Lemma fits_typed : forall cfg c x t,
+  c_strict cfg = e_strict c -> wt cfg x = true -> erase x = Some t -> fits_proto c t = true -> fits c t = true.
+Proof.
+  intros cfg c x t Hs. revert t.
+  induction x as [ |b|z|z|i z|b|a b|s|s|s|s|i l IHl|l IHl|i|i|m n|m n l IHl|p IHp|tg| ] using val_ind';
+    intros t Hw He Hf; cbn in He; try discriminate;
+    try (inversion He; subst; cbn in Hf |- *; exact Hf).
+  - inversion He; subst. exact Hw.
+  - inversion He; subst. cbn in Hw, Hf |- *. rewrite Hf, <- Hs, Hw. reflexivity.
+  - destruct (map_opt erase l) as [tl|] eqn:El; [|discriminate]. inversion He; subst.
+    cbn in Hw, Hf |- *. eapply fits_typed_list; eassumption.
+  - destruct (map_opt erase l) as [tl|] eqn:El; [|discriminate]. inversion He; subst.
+    cbn in Hw, Hf |- *. eapply fits_typed_list; eassumption.
+  - destruct (map_opt erase l) as [tl|] eqn:El; [|discriminate]. inversion He; subst.
+    cbn in Hw, Hf |- *. apply andb_true_iff in Hf. destruct Hf as [Hc Hl]. rewrite Hc.
+    eapply fits_typed_list; eassumption.
+  - destruct (erase p) as [tp|] eqn:Ep; [|discriminate]. inversion He; subst.
+    cbn in Hw, Hf |- *. apply andb_true_iff in Hf. destruct Hf as [H1 H2]. rewrite H1.
+    apply IHp; [exact Hw|reflexivity|exact H2].
+Qed.
+
+(* C05 for the heap-free fragment: whatever Decode returned (first call, any input, any prior
+   state satisfying the typing invariant) re-encodes at protocol c and decodes back to the same
+   content, provided protocol c has an opcode form the theorem covers for each leaf (fits_proto) *)
+Theorem redecode : forall cfg c st0 inp x st1 rest0 t st rest,
+  state_ok cfg st0 -> load_ok cfg ->
+  decode cfg st0 inp = ((Ok x, st1), rest0) ->
+  c_strict cfg = e_strict c -> (0 <= e_proto c <= 5)%Z ->
+  erase x = Some t -> fits_proto c t = true ->
+  exists r, reify x = Some r /\
+    snd (run_w (encode c r) None) = EOk /\
+    exists x' st', decode (dcfg_of c (c_pydict cfg)) st (output (encode c r) ++ rest) = ((Ok x', st'), rest) /\
+                   erase x' = erase x.
+Proof.
+  intros cfg c st0 inp x st1 rest0 t st rest Hst Hh D Hs Hp He Hf.
+  destruct (decode_typed cfg Hh st0 inp (Ok x) st1 rest0 Hst D) as [_ Rk].
+  pose proof (Rk x eq_refl) as Hw.
+  apply decode_encode_decode with (t := t); try assumption.
+  eapply fits_typed; eassumption.
+Qed.
